@@ -46,6 +46,9 @@ CORPUS = [
     "Where(SelectMany(ds, lambda e: e.jets), lambda j: j.pt > e)",
     "Select(SelectMany(ds, lambda e: e.jets), lambda j: j.pt + e)",
     "(lambda e: Where(SelectMany(s, lambda y: e), lambda y: 1))(lambda e: e)",
+    # zero-parameter lambdas inside lambdas that get renamed
+    "Select(Select(ds, lambda e: e.met), lambda m: (lambda: 100)() + m)",
+    "Select(ds, lambda e: Select(Select(e.jets, lambda j: (j, e)), lambda e: (lambda: 1000)() + e[0].pt + e[1].met))",
     # F18
     "{'a': 1, 'a': 2}.a", "{'a': 1, 'a': 2}['a']", "{1: 'x', True: 'y'}[1]",
     # F20 SelectMany of SelectMany
@@ -67,7 +70,7 @@ def small_grammar(size: int):
         return [N("ds"), N("x"), C(0), C("a")]
 
     un = [lambda a: A(a, "a"), lambda a: fcall("First", a), lambda a: mcall(a, "First"), lambda a: gen.sub(a, C(0)),
-          lambda a: gen.sub(a, C("a")), lambda a: gen.tup(a), lambda a: lam("x", a), lambda a: call(lam("x", a), []),
+          lambda a: gen.sub(a, C("a")), lambda a: gen.tup(a), lambda a: lam("x", a), lambda a: call(lam("x", a), []), lambda a: call(lam([], a), []),
           lambda a: fcall("Select", a), lambda a: mcall(a, "m"), lambda a: gen.dct([(C("a"), a)]),
           lambda a: call(lam(["x", "y"], a), [N("ds")])]
     bi = [lambda a, b: fcall("Select", a, lam("x", b)), lambda a, b: fcall("Where", a, lam("x", b)),
